@@ -12,7 +12,7 @@ import (
 	"github.com/dpb587/rdfkit-go/rdf/objecttypes"
 )
 
-var durationValidRE = regexp.MustCompile(`^(-)?P(((\d*(\.\d*)?)Y)?((\d*(\.\d*)?)M)?((\d*(\.\d*)?)D)?)?(T((\d*(\.\d*)?)H)?((\d*(\.\d*)?)M)?((\d*(\.\d*)?)S)?)?$`)
+var durationValidRE = regexp.MustCompile(`^(-)?P(?:(\d+(?:\.\d+)?)Y)?(?:(\d+(?:\.\d+)?)M)?(?:(\d+(?:\.\d+)?)D)?(T(?:(\d+(?:\.\d+)?)H)?(?:(\d+(?:\.\d+)?)M)?(?:(\d+(?:\.\d+)?)S)?)?$`)
 
 type Duration struct {
 	Years    float64
@@ -30,6 +30,9 @@ func MapDuration(lexicalForm string) (Duration, error) {
 	vMatch := durationValidRE.FindStringSubmatch(xsdutil.WhiteSpaceCollapse(lexicalForm))
 	if vMatch == nil {
 		return Duration{}, rdf.ErrLiteralLexicalFormNotValid
+	} else if len(vMatch[6]) == 0 && len(vMatch[7]) == 0 && len(vMatch[8]) == 0 && (len(vMatch[5]) > 0 || (len(vMatch[2]) == 0 && len(vMatch[3]) == 0 && len(vMatch[4]) == 0)) {
+		// at least one component; a T only before a time component
+		return Duration{}, rdf.ErrLiteralLexicalFormNotValid
 	}
 
 	var err error
@@ -39,43 +42,43 @@ func MapDuration(lexicalForm string) (Duration, error) {
 		l.Negative = true
 	}
 
-	if len(vMatch[4]) > 0 {
-		l.Years, err = strconv.ParseFloat(vMatch[4], 64)
+	if len(vMatch[2]) > 0 {
+		l.Years, err = strconv.ParseFloat(vMatch[2], 64)
 		if err != nil {
 			return Duration{}, fmt.Errorf("%w: year: %v", rdf.ErrLiteralLexicalFormNotValid, err)
 		}
 	}
 
-	if len(vMatch[7]) > 0 {
-		l.Months, err = strconv.ParseFloat(vMatch[7], 64)
+	if len(vMatch[3]) > 0 {
+		l.Months, err = strconv.ParseFloat(vMatch[3], 64)
 		if err != nil {
 			return Duration{}, fmt.Errorf("%w: month: %v", rdf.ErrLiteralLexicalFormNotValid, err)
 		}
 	}
 
-	if len(vMatch[10]) > 0 {
-		l.Days, err = strconv.ParseFloat(vMatch[10], 64)
+	if len(vMatch[4]) > 0 {
+		l.Days, err = strconv.ParseFloat(vMatch[4], 64)
 		if err != nil {
 			return Duration{}, fmt.Errorf("%w: day: %v", rdf.ErrLiteralLexicalFormNotValid, err)
 		}
 	}
 
-	if len(vMatch[14]) > 0 {
-		l.Hours, err = strconv.ParseFloat(vMatch[14], 64)
+	if len(vMatch[6]) > 0 {
+		l.Hours, err = strconv.ParseFloat(vMatch[6], 64)
 		if err != nil {
 			return Duration{}, fmt.Errorf("%w: hour: %v", rdf.ErrLiteralLexicalFormNotValid, err)
 		}
 	}
 
-	if len(vMatch[17]) > 0 {
-		l.Minutes, err = strconv.ParseFloat(vMatch[17], 64)
+	if len(vMatch[7]) > 0 {
+		l.Minutes, err = strconv.ParseFloat(vMatch[7], 64)
 		if err != nil {
 			return Duration{}, fmt.Errorf("%w: minute: %v", rdf.ErrLiteralLexicalFormNotValid, err)
 		}
 	}
 
-	if len(vMatch[20]) > 0 {
-		l.Seconds, err = strconv.ParseFloat(vMatch[20], 64)
+	if len(vMatch[8]) > 0 {
+		l.Seconds, err = strconv.ParseFloat(vMatch[8], 64)
 		if err != nil {
 			return Duration{}, fmt.Errorf("%w: second: %v", rdf.ErrLiteralLexicalFormNotValid, err)
 		}
@@ -147,6 +150,11 @@ func (l Duration) AsLexicalForm() string {
 			out.WriteString(strconv.FormatFloat(l.Seconds, 'f', -1, 64))
 			out.WriteByte('S')
 		}
+	}
+
+	if out.Len() == len("-P") && l.Negative || out.Len() == len("P") && !l.Negative {
+		// a duration of no length still needs one component
+		out.WriteString("T0S")
 	}
 
 	return out.String()
